@@ -28,6 +28,9 @@ def run(ctx, res):
     strwidth_rule(ctx, res)
     lemma_rule(ctx, res, "C13.lemma")
     noline_rule(ctx, res)
+    from . import C04
+    res.rules_run.append("C13.dispatch (Value-level dispatch of fmt_with / fmt_with_size / pre_compute_size: scalars are measured as printed - null 4, true 4, false 5, numbers their text, strings printed_string_size - and containers, at the root too, go through the measured emitters with the same options, indent and size table)")
+    C04.dispatch_rule(ctx, res, "C13.dispatch")
     res.trusted += ["summary table (fmt entry points, slice iterators yield the items in order, ExactSizeIterator::len)",
                     "layout reference jsv/refmodels/print_layout.py (two doc-silent rows follow today's behaviour)"]
     res.assumptions.append("width additions do not overflow usize (bounded by the length of the output)")
